@@ -275,7 +275,12 @@ func c10ResultString(r filter.Result) string {
 }
 
 // c10NewStack builds a fresh production chain for conf.
-func c10NewStack(conf c10Config) (s *c10Stack) {
+func c10NewStack(conf c10Config) (s *c10Stack) { return c10NewStackWith(conf, nil, nil) }
+
+// c10NewStackWith is like [c10NewStack], but when prof is not nil the chain
+// serves that profile and device (e.g. a profile loaded from the profile
+// database's file cache) instead of building them from conf.
+func c10NewStackWith(conf c10Config, prof *agd.Profile, dev *agd.Device) (s *c10Stack) {
 	rec := &c10Rec{}
 	s = &c10Stack{
 		rec:    rec,
@@ -293,7 +298,9 @@ func c10NewStack(conf c10Config) (s *c10Stack) {
 	s.am = &c10Access{cur: g}
 
 	// Profile with the real profile access engine.
-	if conf.Prof != "none" {
+	if prof != nil {
+		s.prof, s.dev = prof, dev
+	} else if conf.Prof != "none" {
 		var pa access.Profile
 		switch conf.Prof {
 		case "empty":
@@ -543,6 +550,18 @@ type c10Query struct {
 	Anonymous bool `json:"anonymous,omitempty"`
 }
 
+// Malformed EDNS Client Subnet options (values of c10Query.ECS).
+const (
+	c10ECSBadFamily = "badfamily" // address family 3
+	c10ECSBadLen    = "badlen"    // IPv4 source prefix length 33
+	c10ECSBadBits   = "badbits"   // 100.70.0.5/24: bits set beyond the prefix
+)
+
+// malformedECS reports whether the request carries a malformed ECS option.
+func (q c10Query) malformedECS() bool {
+	return q.ECS == c10ECSBadFamily || q.ECS == c10ECSBadLen || q.ECS == c10ECSBadBits
+}
+
 // c10ECSLocations is the fixed GeoIP table of the ECS networks.
 var c10ECSLocations = map[netip.Addr]*geoip.Location{
 	netip.MustParseAddr("100.70.0.0"): {Country: geoip.Country("XB"), ASN: 64500},
@@ -603,12 +622,22 @@ func (s *c10Stack) serve(q c10Query, id uint16) (o *c10Obs) {
 	s.anon = q.Anonymous
 	req := vdns.NewReq(id, q.Name, q.QType, dns.ClassINET)
 	if q.ECS != "" {
-		p := netip.MustParsePrefix(q.ECS)
 		req.SetEdns0(1232, false)
 		opt := req.IsEdns0()
-		opt.Option = append(opt.Option, &dns.EDNS0_SUBNET{
-			Code: dns.EDNS0SUBNET, Family: 1, SourceNetmask: uint8(p.Bits()), Address: net.IP(p.Addr().AsSlice()),
-		})
+		o := &dns.EDNS0_SUBNET{Code: dns.EDNS0SUBNET, Family: 1}
+		switch q.ECS {
+		case c10ECSBadFamily:
+			o.Family, o.SourceNetmask, o.Address = 3, 24, net.IP{100, 70, 0, 0}
+		case c10ECSBadLen:
+			o.SourceNetmask, o.Address = 33, net.IP{100, 70, 0, 0}
+		case c10ECSBadBits:
+			// Address bits set beyond the source prefix length.
+			o.SourceNetmask, o.Address = 24, net.IP{100, 70, 0, 5}
+		default:
+			p := netip.MustParsePrefix(q.ECS)
+			o.SourceNetmask, o.Address = uint8(p.Bits()), net.IP(p.Addr().AsSlice())
+		}
+		opt.Option = append(opt.Option, o)
 	}
 	var err error
 	if p := vrt.Catch(func() { err = h.ServeDNS(ctx, w, req) }); p != "" {
